@@ -44,7 +44,7 @@ func main() {
 	self, _ := os.Executable()
 	w := *workers
 	if w == 0 {
-		w = 4
+		w = 8
 		if *tier == "thorough" {
 			w = 16
 		}
